@@ -339,6 +339,11 @@ def estimate_stats(voltages, stats_calc_num_samples=10000):
         Standard deviation of voltages
     """
     calc_len = xp.amin(xp.array([stats_calc_num_samples, len(voltages)]))
+    v_min, v_max = xp.amin(voltages[:calc_len]), xp.amax(voltages[:calc_len])
+    if v_min == v_max:
+        # Constant input has exactly zero variance, but the floating point mean can be
+        # off by an ulp, which would leave a spurious sigma ~ 1e-16 * |mean| (or overflow)
+        return v_min, 0.0
     data_sigma = xp.std(voltages[:calc_len])
     data_mean = xp.mean(voltages[:calc_len])
     
